@@ -54,6 +54,11 @@ CHECKS = [
         "Four files; per-node fact queries (normalized_type, annotation_of_def) are not compared. The pinned tree violated the property (F9) and was repaired by a fix: commit.",
         "TLA+ from-scratch session semantics; TLC-enumerated and simulated edit histories replayed on a long-lived session (model + fresh-session oracle); TLC trace validation of recorded histories",
         "DESIGN.md §4 C15"),
+    chk("C17", "model_checking",
+        "spec/ZySessionConc.tla (owner, k analysers on storage-sharing snapshots, salsa cancellation flag, writer that waits for running handles; pending slot of check_resolved), spec/ZyKeySpace.tla (atomic counter) and spec/ZyLspCommit.tla (read revision / snapshot / analyse / revision-checked commit) are model checked over all interleavings: Isolation (a finished analysis equals its snapshot's contents), WriteCompletes (liveness under weak fairness), UniqueKeySpaces, CommitFresh; each deliberately wrong variant (writer does not wait, split load/store, unchecked commit) is refuted on every run. The real session is bound by randomized stress: an owner thread editing (overlays, disk write + refresh) and taking snapshots, 8 (thorough 2-16) analyser threads running graph/analyze/executable on their snapshots under salsa::Cancelled::catch, 4 allocator threads; every completed analysis (about 9000 per 20 s) is validated by TLC (spec/ZySessionConcTrace.tla) against ZySession's from-scratch answer for the contents its snapshot saw, or must be cancelled; key spaces pairwise distinct; watchdog for a blocked owner.",
+        "Exhaustive interleavings are about the models; the code is explored under the schedules the OS produced. The LSP commit model is not yet bound to the cajun binary over stdio. One known finding (F10: check_resolved pending slot).",
+        "TLA+ concurrency models exhaustively model checked by TLC (safety + liveness, wrong variants refuted); randomized stress of the real session recorded as a trace and validated by TLC against the sequential from-scratch semantics",
+        "DESIGN.md §4 C17"),
 ]
 
 PENDING_REASON = "check not built yet (planned, see DESIGN.md)"
